@@ -177,6 +177,56 @@ def tExtIter (hint n : Nat) (s : St) : Bool × St :=
   let s := s.reserve hint
   tExtIterLoop hint 0 n s
 
+/-- `Extend::extend` = `extend_iter` (thin.rs:1085) with every user call: `into_iter()`,
+`size_hint()`, then `reserve`, the loop, and the drop of the iterator -/
+def tExtend (hint k : Nat) (s : St) : Bool × St :=
+  let (p0, s) := s.onMem Mem.tick
+  if p0 then (true, s)
+  else
+    let (p1, s) := s.onMem Mem.tick
+    if p1 then
+      let (_, s) := s.onMem Mem.tick
+      (true, s)
+    else
+      let (p, s) := tExtIter hint k s
+      let (q, s) := s.onMem Mem.tick
+      (p || q, s)
+
+/-- loop of `from_iter` (thin.rs:205-214) on the local vector `o`: item number `i`, `k` items
+left, lower size hint `min` -/
+def tFromIterLoop (min : Nat) : Nat → Nat → Vec → St → Bool × Vec × St
+  | _, 0, o, s =>
+    let (p, s) := s.onMem Mem.tick
+    (p, o, s)
+  | i, k + 1, o, s =>
+    match s.onMem Mem.genVal with
+    | (none, s) => (true, o, s)
+    | (some a, s) =>
+      let o := if i ≥ min then o.reserve 1 else o
+      tFromIterLoop min (i + 1) k (o.store a) (s.chk (o.len < o.cap))
+
+/-- `ThinVec::from_iter` (thin.rs:200) building a temporary: `into_iter()`, `size_hint()`,
+`with_capacity(min)` (`P::default()`), the loop; then the iterator and the new vector are dropped
+(returned to the caller who drops it, or by unwinding) -/
+def tFromIter (hint k : Nat) (s : St) : Bool × St :=
+  let (p0, s) := s.onMem Mem.tick
+  if p0 then (true, s)
+  else
+    let (p1, s) := s.onMem Mem.tick
+    if p1 then
+      let (_, s) := s.onMem Mem.tick
+      (true, s)
+    else
+      match tWithCap hint s.v.h.esz s.v.h.tracked s with
+      | (none, s) =>
+        let (_, s) := s.onMem Mem.tick
+        (true, s)
+      | (some o, s) =>
+        let (p, o, s) := tFromIterLoop hint 0 k o s
+        let (q, s) := s.onMem Mem.tick
+        let (r, s) := tDropVec o s
+        (p || q || r, s)
+
 /-- `guarded_slice_clone` into the spare capacity of a local vector `o` (whose length is 0) -/
 def guardedCloneLocal : List Slot → Nat → Vec → St → Bool × Vec × St
   | [], _, o, s => (false, o, s)
